@@ -607,10 +607,9 @@ func (c *glCtx) callMulti(call *ast.CallExpr, n int) []string {
 	}
 	extra += len(mutIdx)
 	if catchErr {
-		if extra > 0 {
-			c.fail(call, "errors-as-data call of a monadic function that writes through its arguments")
-		}
-		// (results…, error): a Go error of the callee becomes `Go.Error.other tag` next to zero results
+		// (results…, written-through receiver/arguments…, error): a Go error of the callee becomes `Go.Error.other tag` next
+		// to zero results; a receiver / argument the callee writes through keeps its CURRENT value in that case (what Go
+		// leaves in it after a failed call is not modelled)
 		var zs []string
 		for i := 0; i < nres; i++ {
 			z, ok := c.g.zero(sig.Results().At(i).Type())
@@ -619,14 +618,30 @@ func (c *glCtx) callMulti(call *ast.CallExpr, n int) []string {
 			}
 			zs = append(zs, z)
 		}
+		if callee.mutRecv {
+			zs = append(zs, c.expr(recvExpr))
+		}
+		for _, i := range mutIdx {
+			zs = append(zs, c.expr(call.Args[i]))
+		}
 		t := c.fresh("t")
 		c.emit("let %s ← Go.catchErr (%s) %s", t, strings.Join(parts, " "), tupleTerm(zs))
-		var vals []string
-		if nres == 0 {
-			vals = []string{t + ".2"}
+		var all []string
+		if len(zs) == 0 {
+			all = nil
 		} else {
-			vals = append(tupleProj(t+".1", nres), t+".2")
+			all = tupleProj(t+".1", len(zs))
 		}
+		k := nres
+		if callee.mutRecv {
+			c.store(recvExpr, all[k])
+			k++
+		}
+		for _, i := range mutIdx {
+			c.store(call.Args[i], all[k])
+			k++
+		}
+		vals := append(append([]string{}, all[:nres]...), t+".2")
 		if n >= 0 && n != nres+1 && n != 0 {
 			c.fail(call, "call result arity: have %d want %d", nres+1, n)
 		}
